@@ -88,6 +88,7 @@ def encOps (op : String) (a : List String) : Option String :=
   | "rt.mdattach", [x] => let n := argHex x; some (oracle (rtMdName n) n)      -- an attachment is spelled with the same token
   | "enc.mdattach", [x] => some (match metadataName (argHex x) with | .ok t => outHex (t ++ [32, 33, 48]) | .panic => "panic")
   | "rt.string", [x] => let n := argHex x; some (oracle (isStringTok (quote n) && asmUnquote (quote n) == n) n)
+  | "rt.strsites", [x] => let n := argHex x; some (oracle (isStringTok (quote n) && asmUnquote (quote n) == n) n)
   | "rt.chararray", [x] => let n := argHex x; some (oracle (isStringTok (quote n) && asmUnquote (quote n) == n) n)
   | _, _ => none
 
